@@ -32,6 +32,7 @@ ERASE_METHODS = {
     'std::iter::FromIterator::from_iter#std', 'std::cell::RefCell::<T>::new',
     'std::slice::<impl [T]>::into_vec', 'core::slice::<impl [T]>::into_vec', 'alloc::slice::<impl [T]>::into_vec',
     'std::boxed::box_assume_init_into_vec_unsafe', 'std::boxed::Box::<T>::new_uninit',
+    'std::vec::Vec::<T, A>::as_slice', 'std::vec::Vec::<T>::as_slice', 'std::vec::Vec::<T, A>::as_mut_slice',
 }
 
 LAMBDA_STAGES = {'map', 'filter', 'take_while', 'skip_while', 'flat_map', 'filter_map', 'inspect'}
@@ -1068,10 +1069,36 @@ class Evaluator:
         fv = self.ev(f, env, body, depth)
         return self.apply(fv, args, depth)
 
+    def static_impl(self, e):
+        """the implementation a trait-method call is statically dispatched to, when the receiver's type is literally the
+        self type of one of the crate's impls (e.g. a Vec<T> method delegating to the [T] impl)"""
+        tr = e.get('callee_trait')
+        if not tr or not e.get('callee_local'):
+            return None
+        import re as _re
+        ty = strip_refs(e.get('recv_ty', ''))
+        for imp in self.crate.impls:
+            if imp.get('trait') == tr and _re.sub(r'/#\d+', '', strip_refs(imp.get('self_ty', ''))) == ty:
+                for it in imp['items']:
+                    if it['name'] == e.get('name'):
+                        return it['path']
+        return None
+
     def ev_MethodCall(self, e, env, body, depth):
         recv = self.ev(e['recv'], env, body, depth)
         args = [recv] + [self.ev(a, env, body, depth) for a in e['args']]
         callee = e.get('callee') or ('?::' + e['name'])
+        # delegation between implementations of one trait method (e.g. the Vec<T> impl calling the [T] impl)
+        same_method = body is not None and body.raw.get('impl_trait') == e.get('callee_trait') and body.raw.get('assoc_name') == e.get('name')
+        impl_path = self.static_impl(e) if same_method else None
+        if impl_path is not None:
+            b = self.crate.body(impl_path)
+            if b is not None and b is not body and not self.has_loop(b) and depth < self.max_depth and impl_path not in [c for c, _, _ in self.stack]:
+                self.stack.append((impl_path, e, body))
+                try:
+                    return self.unwrap_ret(self.eval_body(b, args, depth + 1))
+                finally:
+                    self.stack.pop()
         adj = e['recv'].get('adj') or []
         if any('Mut' in a and 'Borrow' in a for a in adj) or e.get('recv_ty', '').startswith('&mut'):
             self.emit('mutcall', e, body, callee=callee, args=tuple(args), target=self.place_root(e['recv']),
